@@ -12,8 +12,18 @@ import (
 	"errors"
 	"math/big"
 	"math/rand"
+	"time"
 
 	sdkmath "cosmossdk.io/math"
+	"github.com/cosmos/cosmos-sdk/store/prefix"
+	sdk "github.com/cosmos/cosmos-sdk/types"
+	stakingtypes "github.com/cosmos/cosmos-sdk/x/staking/types"
+
+	keytypes "github.com/ExocoreNetwork/exocore/types/keys"
+	"github.com/ExocoreNetwork/exocore/utils"
+	epochskeeper "github.com/ExocoreNetwork/exocore/x/epochs/keeper"
+	epochstypes "github.com/ExocoreNetwork/exocore/x/epochs/types"
+	operatortypes "github.com/ExocoreNetwork/exocore/x/operator/types"
 
 	delegationkeeper "github.com/ExocoreNetwork/exocore/x/delegation/keeper"
 	delegationtypes "github.com/ExocoreNetwork/exocore/x/delegation/types"
@@ -270,16 +280,59 @@ func kernShare(rng *rand.Rand, s *big.Int) *big.Int {
 	}
 }
 
+// kernEpochTick runs the REAL x/epochs BeginBlocker on a store that holds exactly one epoch info (written raw, so
+// that invalid infos reach the validation branch too) with recording hooks, and returns what it left behind:
+// [CurrentEpochStartHeight; EpochCountingStarted; CurrentEpoch; CurrentEpochStartTime; AfterEpochEnd number or -1;
+//
+//	BeforeEpochStart number or -1]
+func kernEpochTick(env *Env, ei epochstypes.EpochInfo, h int64, t time.Time) []*big.Int {
+	ctx, _ := env.Ctx.CacheContext()
+	storeKey := env.App.GetKey(epochstypes.StoreKey)
+	st := prefix.NewStore(ctx.KVStore(storeKey), epochstypes.KeyPrefixEpoch)
+	it := st.Iterator(nil, nil)
+	var keys [][]byte
+	for ; it.Valid(); it.Next() {
+		keys = append(keys, append([]byte{}, it.Key()...))
+	}
+	it.Close()
+	for _, k := range keys {
+		st.Delete(k)
+	}
+	st.Set([]byte(ei.Identifier), env.App.AppCodec().MustMarshal(&ei))
+	var log []c15Event
+	k := epochskeeper.NewKeeper(env.App.AppCodec(), storeKey)
+	k.SetHooks(epochstypes.NewMultiEpochHooks(c15Rec{0, &log}))
+	k.BeginBlocker(ctx.WithBlockHeight(h).WithBlockTime(t))
+	var out epochstypes.EpochInfo
+	env.App.AppCodec().MustUnmarshal(st.Get([]byte(ei.Identifier)), &out)
+	after, before := int64(-1), int64(-1)
+	for _, e := range log {
+		if e.Kind == "end" {
+			after = e.Num
+		} else {
+			before = e.Num
+		}
+	}
+	b2i := int64(0)
+	if out.EpochCountingStarted {
+		b2i = 1
+	}
+	return []*big.Int{big.NewInt(out.CurrentEpochStartHeight), big.NewInt(b2i), big.NewInt(out.CurrentEpoch),
+		timeZ(out.CurrentEpochStartTime), big.NewInt(after), big.NewInt(before)}
+}
+
 func runKernels(a *Args) error {
 	w := NewCaseWriter(a.Out)
 	defer w.Close()
 	rng := rand.New(rand.NewSource(a.Seed))
+	env := NewEnv(EnvCfg{}) // only for the kernels that live inside keepers (epoch tick, slash proportion)
+	epochBase := time.Date(2024, 3, 1, 12, 0, 0, 0, time.UTC)
 	perCase := 20
 	for c := 0; c < a.N; c++ {
 		kc := kernCase{Suite: "kernels", NT: true}
 		for j := 0; j < perCase; j++ {
 			var call kernCall
-			switch k := rng.Intn(20); {
+			switch k := rng.Intn(28); {
 			case k < 3: // TokensFromShares, raw boundary inputs
 				sh, s, t := kernPickDec(rng), kernPickDec(rng), kernPickInt(rng)
 				if rng.Intn(3) == 0 {
@@ -422,6 +475,179 @@ func runKernels(a *Args) error {
 				call = kernCall{Fn: "GasToRefund", Args: kernStrs(new(big.Int).SetUint64(av), new(big.Int).SetUint64(co), new(big.Int).SetUint64(qu))}
 				kernRun(&call, func() ([]*big.Int, error) {
 					return []*big.Int{new(big.Int).SetUint64(evmkeeper.GasToRefund(av, co, qu))}, nil
+				})
+			case k == 20 || k == 21: // sort_by_power_less through the real utils.SortByPower on two candidates
+				mk := func() []byte {
+					b := make([]byte, 20)
+					switch rng.Intn(4) {
+					case 0:
+						rng.Read(b)
+					case 1:
+						b[19] = byte(rng.Intn(3))
+					case 2:
+						b[0] = byte(0x7f + rng.Intn(3)) // around the sign bit: the comparison is unsigned
+					default:
+						b[rng.Intn(20)] = byte(rng.Intn(256))
+					}
+					return b
+				}
+				a0, a1 := mk(), mk()
+				if rng.Intn(6) == 0 {
+					a1 = append([]byte{}, a0...)
+				}
+				pw := func() int64 {
+					return []int64{0, 1, 2, 100, -1, 9223372036854775807, -9223372036854775808, int64(rng.Intn(5))}[rng.Intn(8)]
+				}
+				p0, p1 := pw(), pw()
+				if rng.Intn(2) == 0 {
+					p1 = p0
+				}
+				// the closure is called as less(1, 0): element 1 goes first iff less(cand1, cand0)
+				call = kernCall{Fn: "sort_by_power_less", Args: kernStrs(new(big.Int).SetBytes(a1), new(big.Int).SetBytes(a0), big.NewInt(p1), big.NewInt(p0))}
+				kernRun(&call, func() ([]*big.Int, error) {
+					as, _, ps := utils.SortByPower([]sdk.AccAddress{a0, a1}, make([]keytypes.WrappedConsKey, 2), []int64{p0, p1})
+					first1 := ps[0] == p1 && string(as[0]) == string(a1) && !(p0 == p1 && string(a0) == string(a1))
+					if first1 {
+						return []*big.Int{big.NewInt(1)}, nil
+					}
+					return []*big.Int{big.NewInt(0)}, nil
+				})
+			case k == 22 || k == 23: // epoch_tick_decision through the real BeginBlocker
+				durs := []time.Duration{1, 2, 7, time.Second, time.Minute, 1_000_000_007}
+				dur := durs[rng.Intn(len(durs))]
+				ei := epochstypes.EpochInfo{Identifier: "k", Duration: dur, StartTime: epochBase.Add(time.Duration(rng.Int63n(int64(3*dur)+3)) - dur)}
+				if rng.Intn(2) == 0 {
+					ei.EpochCountingStarted = true
+					ei.CurrentEpoch = rng.Int63n(40)
+					ei.CurrentEpochStartTime = epochBase.Add(time.Duration(rng.Int63n(int64(2*dur)+2)) - dur)
+					ei.CurrentEpochStartHeight = rng.Int63n(5)
+				}
+				switch rng.Intn(14) {
+				case 0:
+					ei.Duration = 0
+				case 1:
+					ei.CurrentEpoch = -1
+				case 2:
+					ei.CurrentEpochStartHeight = -1
+				case 3:
+					ei.Duration = -5
+				}
+				t := epochBase
+				end := ei.CurrentEpochStartTime.Add(ei.Duration)
+				switch rng.Intn(8) {
+				case 0:
+					t = ei.StartTime
+				case 1:
+					t = ei.StartTime.Add(-1)
+				case 2:
+					t = end
+				case 3:
+					t = end.Add(1)
+				case 4:
+					t = end.Add(-1)
+				case 5:
+					t = epochBase.Add(time.Duration(rng.Int63n(int64(4*dur) + 4)))
+				}
+				h := rng.Int63n(1000)
+				valid, started := int64(0), int64(0)
+				if ei.Validate() == nil {
+					valid = 1
+				}
+				if ei.EpochCountingStarted {
+					started = 1
+				}
+				call = kernCall{Fn: "epoch_tick_decision", Args: kernStrs(big.NewInt(h), timeZ(t), big.NewInt(valid), timeZ(ei.StartTime),
+					big.NewInt(int64(ei.Duration)), big.NewInt(ei.CurrentEpoch), timeZ(ei.CurrentEpochStartTime), big.NewInt(started),
+					big.NewInt(ei.CurrentEpochStartHeight))}
+				kernRun(&call, func() ([]*big.Int, error) { return kernEpochTick(env, ei, h, t), nil })
+			case k == 24 || k == 25: // slash_proportion through the real OperatorKeeper.SlashAssets
+				ctx, _ := env.Ctx.CacheContext()
+				ok := &env.App.OperatorKeeper
+				op := env.Operators[rng.Intn(len(env.Operators))]
+				slashOnce := func(power int64, sp sdkmath.LegacyDec) (*operatortypes.SlashExecutionInfo, error) {
+					return ok.SlashAssets(ctx, &operatortypes.SlashInputInfo{IsDogFood: true, Power: power, Operator: op,
+						SlashEventHeight: ctx.BlockHeight(), SlashProportion: sp, SlashID: "kern", SlashType: uint32(stakingtypes.Infraction_INFRACTION_DOWNTIME)})
+				}
+				if rng.Intn(2) == 0 { // change the operator's value first, so that the divisor is not always the genesis one
+					func() {
+						defer func() { _ = recover() }()
+						_, _ = slashOnce(int64(1+rng.Intn(100)), kernDec(new(big.Int).Rand(rng, kernP)))
+					}()
+				}
+				var usd sdkmath.LegacyDec
+				func() {
+					defer func() { _ = recover() }()
+					if info, err := ok.CalculateUSDValueForOperator(ctx, true, op.String(), nil, nil, nil); err == nil {
+						usd = info.StakingAndWaitUnbonding
+					}
+				}()
+				if usd.IsNil() {
+					j--
+					continue
+				}
+				power := []int64{0, 1, 2, 100, 101, 1_000_000, 9223372036854775807, int64(rng.Intn(300))}[rng.Intn(8)]
+				var sp *big.Int
+				switch rng.Intn(6) {
+				case 0: // exactly the whole value
+					sp = usd.BigInt()
+				case 1:
+					sp = kernAdd(usd.BigInt(), int64(rng.Intn(3)-1))
+				case 2:
+					sp = new(big.Int).Div(usd.BigInt(), big.NewInt(2))
+				case 3:
+					sp = kernPickDec(rng)
+				default:
+					sp = new(big.Int).Rand(rng, kernAdd(kernP, 1))
+				}
+				if sp.Sign() < 0 || sp.BitLen() > 315 {
+					sp = big.NewInt(0)
+				}
+				call = kernCall{Fn: "slash_proportion", Args: kernStrs(big.NewInt(power), sp, usd.BigInt())}
+				var serr error
+				kernRun(&call, func() ([]*big.Int, error) {
+					info, err := slashOnce(power, kernDec(sp))
+					if err != nil {
+						serr = err
+						return []*big.Int{big.NewInt(0)}, nil
+					}
+					return []*big.Int{info.SlashProportion.BigInt()}, nil
+				})
+				if serr != nil { // the keeper refused for a reason outside the kernel: not a kernel observation
+					j--
+					continue
+				}
+			case k == 26 || k == 27: // the method table: LegacyDec operations against Base/IntDec.v
+				opn := []string{"Dec.QuoTruncate", "Dec.QuoRoundUp", "Dec.Quo", "Dec.MulTruncate", "Dec.Mul"}[rng.Intn(5)]
+				x, y := kernPickDec(rng), kernPickDec(rng)
+				if rng.Intn(3) == 0 {
+					x = new(big.Int).Rand(rng, kernMul(kernP, big.NewInt(1000)))
+					y = kernAdd(new(big.Int).Rand(rng, kernMul(kernP, big.NewInt(3))), 1)
+				}
+				if opn == "Dec.QuoRoundUp" && (x.Sign() < 0 || y.Sign() < 0) { // IntDec.v models QuoRoundUp for non-negative operands
+					x.Abs(x)
+					y.Abs(y)
+				}
+				if x.BitLen() > 315 || y.BitLen() > 315 {
+					j--
+					continue
+				}
+				call = kernCall{Fn: opn, Args: kernStrs(x, y)}
+				kernRun(&call, func() ([]*big.Int, error) {
+					dx, dy := kernDec(x), kernDec(y)
+					var r sdkmath.LegacyDec
+					switch opn {
+					case "Dec.QuoTruncate":
+						r = dx.QuoTruncate(dy)
+					case "Dec.QuoRoundUp":
+						r = dx.QuoRoundUp(dy)
+					case "Dec.Quo":
+						r = dx.Quo(dy)
+					case "Dec.MulTruncate":
+						r = dx.MulTruncate(dy)
+					default:
+						r = dx.Mul(dy)
+					}
+					return []*big.Int{r.BigInt()}, nil
 				})
 			default: // ExceedsThreshold thresholdA thresholdB power total
 				ta := int32([]int{1, 2, 2, 2, 3, 5}[rng.Intn(6)])
